@@ -112,8 +112,11 @@ def baker_hubbard(ctx, case):
         ctx.cover("some-returned" if (d, h, a) in res else "some-rejected")
 
 
-CASES_BH = [(s, p) for s in ("1x2", "2x1") for p in ("periodic", "non-periodic")]
-contract("C14", "mdtraj/geometry/hbond.py", "baker_hubbard", cases=CASES_BH, replay="hbond", covers=["returned", "some-returned", "some-rejected"], max_paths=3000)(baker_hubbard)
+import os  # noqa: E402
+
+_SHAPES = ("1x2", "2x1", "2x2") if os.environ.get("MDVC_TIER") == "thorough" else ("1x2", "2x1")
+CASES_BH = [(s, p) for s in _SHAPES for p in ("periodic", "non-periodic")]
+contract("C14", "mdtraj/geometry/hbond.py", "baker_hubbard", cases=CASES_BH, replay="hbond", covers=["returned", "some-returned", "some-rejected"], max_paths=30000)(baker_hubbard)
 
 
 def wernet_nilsson(ctx, case):
@@ -151,4 +154,4 @@ def wernet_nilsson(ctx, case):
             ctx.cover("some-returned" if (d, h, a) in res else "some-rejected")
 
 
-contract("C14", "mdtraj/geometry/hbond.py", "wernet_nilsson", cases=CASES_BH, replay="hbond", covers=["returned", "some-returned", "some-rejected"], max_paths=3000)(wernet_nilsson)
+contract("C14", "mdtraj/geometry/hbond.py", "wernet_nilsson", cases=CASES_BH, replay="hbond", covers=["returned", "some-returned", "some-rejected"], max_paths=30000)(wernet_nilsson)
